@@ -328,7 +328,8 @@ inline std::string vstr(const Vec& v) {
 // idmode 1: insert_boundary(2*pos, boundary[,dim])     explicit IDs, reused after a removal, first ID is 0
 // idmode 2: insert_boundary(3*count+2, ...)            explicit fresh IDs (count = insertions so far), never reused
 // idmode 3: insert_boundary(pos, boundary[,dim])       explicit IDs equal to the default ones
-// idmode 4: insert_boundary(pos + removals so far, ..)   explicit IDs; after a removal an ID comes back at another position
+// idmode 4: insert_boundary(top ID + step, ...)          explicit IDs, step 5 before the first removal, then 2 / 3 alternating with
+//                                                       the position: a removed ID can come back at another position (0,5 -> 0,2,5)
 struct Model {
   const Universe* U = nullptr;
   int p = 2;
@@ -344,7 +345,7 @@ struct Model {
     switch (idmode) {
       case 1: return 2u * (unsigned)cur.size();
       case 2: return 3u * counter + 2u;
-      case 4: return (unsigned)cur.size() + removals;
+      case 4: return cur.empty() ? 0u : ids.back() + (removals == 0 ? 5u : (cur.size() % 2 ? 2u : 3u));
       default: return (unsigned)cur.size();
     }
   }
@@ -679,15 +680,18 @@ size_t run_isolated(size_t n, Run&& run, Describe&& describe, CrashCls&& crash_c
     long long k = g_sh->cur;
     if (k < 0 || (size_t)k >= n) { fprintf(stderr, "engine: child died outside a case\n"); exit(2); }
     int sig = g_sh->sig;
-    const char* kind = (sig == SIGALRM || sig == SIGPROF) ? "timeout" : sig == SIGSEGV ? "SIGSEGV" : sig == SIGABRT ? "abort" : sig == SIGFPE ? "SIGFPE"
-                       : sig == SIGBUS ? "SIGBUS" : sig == SIGILL ? "SIGILL" : "exit";
+    // one class for every kind of death but the watchdog: an out-of-bounds access shows up as a sanitizer abort or as a
+    // plain signal depending on the memory layout, and the class has to be the same when the case is replayed alone
+    const char* kind = (sig == SIGALRM || sig == SIGPROF) ? "timeout" : "died";
+    const char* how = sig == SIGSEGV ? "SIGSEGV" : sig == SIGABRT ? "abort (sanitizer report)" : sig == SIGFPE ? "SIGFPE"
+                      : sig == SIGBUS ? "SIGBUS" : sig == SIGILL ? "SIGILL" : (sig == SIGALRM || sig == SIGPROF) ? "watchdog" : "exit";
     std::string phase_now((const char*)g_sh->phase);
     std::string cls = crash_cls(phase_now, std::string(kind));
     vf::set_case(describe((size_t)k));
     cnt(idx_traces)++;
     if (class_should_print(cls))
-      vf::mismatch(cls, "the process died (" + std::string(kind) + ": sanitizer report, signal or watchdog) inside " + phase_now +
-                            " while executing this history; the sanitizer report is in the stderr log");
+      vf::mismatch(cls, "the process died (" + std::string(how) + ") inside " + phase_now +
+                            " while executing this history; a sanitizer report, if any, is in the stderr log");
     else vf::stats().mismatches++;
     vf::end_case();
     next = (size_t)k + 1;
